@@ -335,11 +335,17 @@ func rule123(r *core.Run, ctx *oblig.Ctx) {
 	bs := r.P.SliceOf(nc.Call.Args[0], core.SliceOpts{Depth: -1})
 	r.Check(bs.Has("field:net/http.Request.Body"), "R12.3", key(name, "decoder wraps r.Body"), pos(r, nc), "newChunkedReader(r.Body)", "the decoder does not wrap the request body")
 	okConst, okKey := false, false
-	for _, g := range core.GuardsOf(nc) {
-		cd := core.CondOf(g.If.Cond)
-		gs := r.P.SliceOf(g.If.Cond, core.SliceOpts{Depth: -1})
-		if eq, ok := g.Equality(); ok && eq && gs.Has("const:STREAMING-AWS4-HMAC-SHA256-PAYLOAD") && gs.Has("const:X-Amz-Content-Sha256") {
-			_ = cd
+	for _, ec := range expandedConds(nc) {
+		if ec.merged {
+			continue
+		}
+		cd := core.CondOf(ec.cond)
+		if cd.Op != token.EQL && cd.Op != token.NEQ {
+			continue
+		}
+		eq := (ec.truth != cd.Neg) == (cd.Op == token.EQL)
+		gs := r.P.SliceOfMany([]ssa.Value{cd.X, cd.Y}, core.SliceOpts{Depth: -1})
+		if eq && gs.Has("const:STREAMING-AWS4-HMAC-SHA256-PAYLOAD") && gs.Has("const:X-Amz-Content-Sha256") {
 			okConst, okKey = true, true
 		}
 	}
